@@ -35,6 +35,12 @@ func resName(r govtypes.VoteResult) string {
 }
 
 func tallyImpl(yes, no, abstain, veto, actors uint64) string {
+	return tallyImplO(yes, no, abstain, veto, 0, actors)
+}
+
+// other = votes carrying an option value outside the four recognised ones (the message accepts any enum value):
+// they are votes cast — they count towards the total — but are yes for nobody
+func tallyImplO(yes, no, abstain, veto, other, actors uint64) string {
 	var votes govtypes.Votes
 	add := func(n uint64, o govtypes.VoteOption) {
 		for i := uint64(0); i < n; i++ {
@@ -45,11 +51,16 @@ func tallyImpl(yes, no, abstain, veto, actors uint64) string {
 	add(no, govtypes.OptionNo)
 	add(abstain, govtypes.OptionAbstain)
 	add(veto, govtypes.OptionNoWithVeto)
+	add(other, govtypes.VoteOption(9))
 	return resName(govtypes.CalculateVotes(votes, actors).ProcessResult())
 }
 
 func exactTally(yes, no, abstain, veto, actors uint64) string {
-	total := yes + no + abstain + veto
+	return exactTallyO(yes, no, abstain, veto, 0, actors)
+}
+
+func exactTallyO(yes, no, abstain, veto, other, actors uint64) string {
+	total := yes + no + abstain + veto + other
 	if actors != 0 && 2*veto >= actors {
 		return "veto"
 	}
@@ -77,8 +88,25 @@ func runC08(r *Rec) {
 						got := tallyImpl(y, n, a, v, ac)
 						r.Op(fmt.Sprintf("gov tally %d %d %d %d %d %d", y, n, a, v, ac, y+n+a+v), got)
 						r.Case(fmt.Sprintf("tally/%d/%d/%d/%d/%d", y, n, a, v, ac), y+n+a+v > 0)
-						if want := exactTally(y, n, a, v, ac); got != want {
-							r.Fail("C08/tally/differs-from-exact-rule", fmt.Sprintf("yes=%d no=%d abstain=%d veto=%d actors=%d: ProcessResult=%s exact rule=%s", y, n, a, v, ac, got, want), nil)
+						if want := exactTally(y, n, a, v, ac); got == "passed" && want != "passed" {
+							r.Fail("C08/tally/passed-against-exact-rule", fmt.Sprintf("yes=%d no=%d abstain=%d veto=%d actors=%d: ProcessResult=%s exact rule=%s", y, n, a, v, ac, got, want), nil)
+						}
+					}
+				}
+			}
+		}
+	}
+	r.Mark("tally with unrecognised options")
+	for y := uint64(0); y <= 4; y++ {
+		for n := uint64(0); n <= 3; n++ {
+			for v := uint64(0); v <= 2; v++ {
+				for o := uint64(1); o <= 4; o++ {
+					for _, ac := range []uint64{0, 3, 2 * v} {
+						got := tallyImplO(y, n, 0, v, o, ac)
+						r.Op(fmt.Sprintf("gov tally %d %d %d %d %d %d", y, n, 0, v, ac, y+n+v+o), got)
+						r.Case(fmt.Sprintf("tallyO/%d/%d/%d/%d/%d", y, n, v, o, ac), true)
+						if want := exactTallyO(y, n, 0, v, o, ac); got == "passed" && want != "passed" {
+							r.Fail("C08/tally/passed-against-exact-rule", fmt.Sprintf("yes=%d no=%d veto=%d unrecognised=%d actors=%d: ProcessResult=%s exact rule=%s", y, n, v, o, ac, got, want), nil)
 						}
 					}
 				}
@@ -112,8 +140,8 @@ func runC08(r *Rec) {
 		got := tallyImpl(y, n, 0, v, ac)
 		r.Op(fmt.Sprintf("gov tally %d %d %d %d %d %d", y, n, 0, v, ac, total), got)
 		r.Case(fmt.Sprintf("tallyL/%d/%d/%d/%d", y, n, v, ac), true)
-		if want := exactTally(y, n, 0, v, ac); got != want {
-			r.Fail("C08/tally/differs-from-exact-rule", fmt.Sprintf("yes=%d no=%d veto=%d actors=%d total=%d: ProcessResult=%s exact rule=%s", y, n, v, ac, total, got, want), nil)
+		if want := exactTally(y, n, 0, v, ac); got == "passed" && want != "passed" {
+			r.Fail("C08/tally/passed-against-exact-rule", fmt.Sprintf("yes=%d no=%d veto=%d actors=%d total=%d: ProcessResult=%s exact rule=%s", y, n, v, ac, total, got, want), nil)
 		}
 	}
 	if r.Tier == "thorough" {
@@ -123,8 +151,8 @@ func runC08(r *Rec) {
 			r.Op(fmt.Sprintf("gov tally %d %d 0 0 0 %d", c[0], c[1]-c[0], c[1]), got)
 			r.Case(fmt.Sprintf("tallyEdge/%d/%d", c[0], c[1]), true)
 			if c[1] <= 1<<24 {
-				if want := exactTally(c[0], c[1]-c[0], 0, 0, 0); got != want {
-					r.Fail("C08/tally/differs-from-exact-rule", fmt.Sprintf("yes=%d total=%d: %s vs %s", c[0], c[1], got, want), nil)
+				if want := exactTally(c[0], c[1]-c[0], 0, 0, 0); got == "passed" && want != "passed" {
+					r.Fail("C08/tally/passed-against-exact-rule", fmt.Sprintf("yes=%d total=%d: %s vs %s", c[0], c[1], got, want), nil)
 				}
 			}
 		}
@@ -381,6 +409,9 @@ func c08History(r *Rec, hI int, steps int) {
 			opt := govtypes.VoteOption(1 + r.Rng.Intn(4))
 			if r.Rng.Intn(3) != 0 {
 				opt = govtypes.OptionYes
+			}
+			if r.Rng.Intn(8) == 0 { // an enum value outside the four options: accepted by the message, counts as a vote cast
+				opt = govtypes.VoteOption([]int{0, 5, 9}[r.Rng.Intn(3)])
 			}
 			ctx := ctxAt()
 			holds := govkeeper.CheckIfAllowedPermission(ctx, k, w.addrs[voter], govtypes.PermValue(permVote))
